@@ -213,6 +213,13 @@ func (g *Gateway) handleLegacyProtocol(w http.ResponseWriter, r *http.Request, t
 		}
 		defer in.Close()
 
+		// without a RDG_OUT_DATA channel for this connection id there is nothing
+		// to answer on
+		if t.transportOut == nil {
+			log.Printf("RDG_IN_DATA for connection %s without RDG_OUT_DATA channel, closing", t.RDGId)
+			return
+		}
+
 		if t.transportIn == nil {
 			t.Id = uuid.New().String()
 			t.transportIn = in
